@@ -779,5 +779,6 @@ func (w *World) ruleRefOrdinal(r *Report, rule string) {
 		_ = fr
 	}
 	r.add(rule, fnName(reg)+" · a hit returns the stored ordinal", w.pos(reg.Pos()), hit, "on a hit the value looked up in the ref table is returned")
+	w.ruleRefKeyPins(r, rule)
 	r.floor(rule, n, 3)
 }
